@@ -24,10 +24,17 @@ sum of pdf * Phi (absolute 1e-13: that is what discriminates when pf is within 1
 side, possibly a SIMD variant for arrays): 1 ulp each moves z by (|log10 L| + |log10 S|) 2^-52 / s_std and pf relatively by
 (|z| + 1) times that; the tolerance is 1e-11 plus four times this budget.
 
-Explicit `lower_limit` / `upper_limit` (not part of the property text, but four of the lines of the repair are exactly
-their conversion): the documented behaviour "only the load distribution between the limits is considered" = the overlap
-integral over the window; the code evaluates it through the complement when the strength median is below the load
-median, so its error is relative to the window's load mass: |got - ref| <= 1e-6 ref + 1e-9 mass + 4 ulp."""
+Explicit `lower_limit` / `upper_limit` (not part of the property text, but the repairs touch exactly their handling): the
+documented behaviour "only the load distribution between the limits is considered" = the overlap integral over the window
+(limits beyond 16 load standard deviations are moved there).  Since the follow-up repair the code integrates the smaller one
+of the window's failure probability P and its complement Q within the window's load mass, so BOTH are demanded relatively:
+|got - P| <= 1e-6 P and |got - P| <= 1e-6 Q + rounding of the mass (a difference of two norm.cdf / norm.sf values: 64 ulp of
+the larger one, times 1 + x^2 in a tail at x) + rounding of the standardised limits (`limit_rounding`: log10 of the load median
+is good for an ulp, the limit is a difference divided by load_std).  Reference: the harness' own adaptive 20-point Gauss-Legendre integration of
+both P and Q (no subtraction anywhere, relative accuracy per panel - a window whose whole content is 1e-200 is resolved).
+Not examined: a window that lies entirely below the strength distribution (beyond 10 strength sd) and is more than 20
+times longer than a strength sd - its content (< 1e-23 of its load mass) sits in a boundary layer that scipy's quad does not
+see (it returns 0.0 or 1e-225 for 1e-28); the generator shortens such windows."""
 import json
 import math
 import warnings
@@ -82,28 +89,50 @@ def simple_rtol(sm, ss, load, z):
     return 1e-11 + 4.0 * (abs(z) + 1.0) * (abs(math.log10(load)) + abs(math.log10(sm))) * 2.0 ** -52 / ss
 
 
+def _gl(f, a, b):
+    c, h = 0.5 * (a + b), 0.5 * (b - a)
+    return h * float(np.dot(_GLW, f(c + h * _GLX)))
+
+
+def adaptive_gl(f, edges, rtol):
+    """sum over the panels between consecutive edges of the integral of f (f >= 0); every panel is bisected until its
+    20-point Gauss-Legendre value agrees with the sum over its halves to rtol RELATIVE TO THE PANEL - so that a window whose
+    whole content is 1e-200 still gets its own relative accuracy -, or is negligible (1e-30 of the running total, or in
+    the denormal range), or cannot be resolved any further in double precision"""
+    total, n = 0.0, 0
+    stack = [(a, b, _gl(f, a, b)) for a, b in zip(edges, edges[1:]) if b > a]
+    while stack:
+        a, b, whole = stack.pop()
+        m = 0.5 * (a + b)
+        l, r = _gl(f, a, m), _gl(f, m, b)
+        n += 1
+        if (abs(l + r - whole) <= rtol * abs(l + r) or abs(l + r) < 1e-30 * total or abs(l + r) < 1e-280
+                or (b - a) <= 1e5 * np.spacing(max(abs(a), abs(b))) or n > 200000):
+            total += l + r
+        else:
+            stack.append((m, b, r))
+            stack.append((a, m, l))
+    return total
+
+
 def ref_window(sm, ss, lm, ls, lo, hi):
-    """independent reference for pf_norm_load with explicit limits: (integral over the standardised window [lo, hi] of
-    phi(t) * Phi((ls t - loc)/ss), load mass of the window); composite 20-point Gauss-Legendre on the pieces cut at the
-    strength distribution's +-10 sigma, the smaller one of Phi / 1 - Phi is integrated (no cancellation)."""
-    lo, hi = max(lo, -40.0), min(hi, 40.0)       # the standard normal density is 0.0 in double precision beyond 38.6
+    """independent reference for pf_norm_load with explicit limits: (P, Q, mass) = integrals over the standardised window
+    [lo, hi] (limits beyond +-16 moved there, as documented) of phi(t) Phi((t - tr)/w) and of phi(t) (1 - Phi((t - tr)/w)), and
+    the load mass of the window; tr = (log10 sm - log10 lm)/ls, w = ss/ls.  Adaptive 20-point Gauss-Legendre, both
+    integrals computed directly (no subtraction), relative accuracy per panel."""
+    lo, hi = min(max(lo, -16.0), 16.0), min(max(hi, -16.0), 16.0)
     if not lo < hi:
-        return 0.0, 0.0
-    loc = math.log10(sm) - math.log10(lm)
-    tr, w, r = loc / ls, 10.0 * ss / ls, ss / ls
-    sgn = 1.0 if loc >= 0 else -1.0
-    edges = sorted({lo, hi, min(max(tr - w, lo), hi), min(max(tr + w, lo), hi)})
-    total = 0.0
-    for a, b in zip(edges, edges[1:]):
-        inner = a >= tr - w and b <= tr + w
-        n = int(min(20000, max(1, math.ceil((b - a) / (0.5 * (min(r, 1.0) if inner else 1.0))))))
-        e = np.linspace(a, b, n + 1)
-        c, h = (e[1:] + e[:-1]) / 2, (e[1:] - e[:-1]) / 2
-        t = (c[:, None] + h[:, None] * _GLX[None, :]).ravel()
-        f = np.exp(-0.5 * t * t) / math.sqrt(2.0 * math.pi) * Phi_vec(sgn * (ls * t - loc) / ss)
-        total += float(np.sum(f.reshape(n, -1) * _GLW[None, :] * h[:, None]))
+        return 0.0, 0.0, 0.0
+    tr, w = (math.log10(sm) - math.log10(lm)) / ls, ss / ls
+    clip = lambda x: min(max(x, lo), hi)
+    cuts = sorted({lo, hi} | {clip(tr + k * w) for k in (-40, -10, -3, 0, 3, 10, 40)} | {clip(float(k)) for k in range(-16, 17, 2)})
+    # the nodes carry a rounding of 2^-52 |t|, the integrand changes by up to a factor e^40 per w: below that no agreement
+    rt = min(0.5, 1e-10 + 100 * 40 * 2.0 ** -52 * 16 / min(1.0, w))
+    phi = lambda t: np.exp(-0.5 * t * t) / math.sqrt(2.0 * math.pi)
+    P = adaptive_gl(lambda t: phi(t) * Phi_vec((t - tr) / w), cuts, rt)
+    Q = adaptive_gl(lambda t: phi(t) * Phi_vec(-(t - tr) / w), cuts, rt)
     mass = Phi(hi) - Phi(lo) if lo < 0 else Phi(-lo) - Phi(-hi)
-    return (total if loc >= 0 else mass - total), mass
+    return P, Q, mass
 
 
 def head_breakpoints(sm, ss, lm, ls):
@@ -124,6 +153,38 @@ def limv(v):
     """explicit limit of a case: None (default), a float, or the strings "inf" / "-inf" (kept as strings so that corpus and
     replay files stay standard JSON)"""
     return None if v is None else float(v)
+
+
+def mass_rounding(lo, hi):
+    """what the rounding of the window's load mass costs: it is a difference of two norm.cdf values (norm.sf values for a window
+    above the load median), each good for a few ulp of ITSELF, and in a tail at x one ulp of the argument moves the value
+    relatively by x^2 ulp: 64 (1 + x^2) ulp of the larger one"""
+    if lo > 0:
+        return 64 * ULP1 * (1.0 + lo * lo) * Phi(-lo)
+    if hi < 0:
+        return 64 * ULP1 * (1.0 + hi * hi) * Phi(hi)
+    return 64 * ULP1 * Phi(hi)
+
+
+def limit_rounding(case):
+    """what the rounding of log10(load_median) costs with explicit limits: the standardised limit (limit - log10 lm)/ls is a
+    difference of two numbers of size |limit| divided by a possibly tiny ls; numpy's, libm's and python's log10 may differ
+    by an ulp, which moves the limit by 2^-52 (|limit| + |log10 lm|)/ls and the integral by at most phi(t) times that (8 ulp
+    allowed per limit)"""
+    l50, ls = math.log10(case["lm"]), case["ls"]
+    out = 0.0
+    for v in (limv(case["lo"]), limv(case["hi"])):
+        if v is not None and math.isfinite(v):
+            t = (v - l50) / ls
+            if abs(t) < 16.0:
+                out += math.exp(-0.5 * t * t) / math.sqrt(2.0 * math.pi) * 16 * ULP1 * (abs(v) + abs(l50)) / ls
+    return out
+
+
+def breakpoint_dropped(ss, ls, lo=-16.0, hi=16.0):
+    """mechanism of the regression of 04bca38: the two break points are closer than 1e-6 of the range, the second one was
+    dropped and the remaining one sits 10 strength sd to the left of the step"""
+    return 20.0 * ss / ls <= 1e-6 * (hi - lo)
 
 
 def logu(rng, lo, hi):
@@ -237,6 +298,45 @@ def gen_bp_family():
                     yield {"kind": "norm", "sm": 100.0, "ss": ss, "lm": lm, "ls": ls}
 
 
+def gen_narrow_family():
+    """FIXED family: strength distribution far narrower than the load distribution (strength_std / load_std 1e-12 .. 1e-5
+    and the threshold 1.6e-6 of the regression of 04bca38 from both sides) x load medians across both tails"""
+    for ls in (1.0, 0.1):
+        for r in (1e-12, 1e-10, 1e-9, 1e-8, 1e-7, 3e-7, 1e-6, 1.5e-6, 1.7e-6, 1e-5):
+            ss = ls * r
+            for z in (-7.0, -5.0, -3.0, -1.2816, -0.1, 0.0, 0.1, 1.2816, 3.0, 5.0, 7.0):
+                yield {"kind": "norm", "sm": 100.0, "ss": ss, "lm": 10.0 ** (2.0 + z * math.hypot(ls, ss)), "ls": ls}
+
+
+def gen_window_family():
+    """FIXED family: explicit windows that hold a tiny probability (or a tiny complement) - the strength median below the
+    load median (loc < 0) and above it; limits given in load standard deviations from the load median"""
+    for ss, ls in ((0.3, 3.0), (0.01, 0.3), (0.05, 0.1), (0.1, 0.1), (0.02, 0.02)):
+        for d in (1e-6, 0.3 * ls, -1e-6, -0.3 * ls):           # log10 load median - log10 strength median
+            l50 = 2.0 + d
+            for a, b in ((-2.0, -1.0), (-3.0, -2.0), (-6.0, -3.0), (-1.0, -0.5), (-8.0, -6.0), (1.0, 2.0), (3.0, 6.0), (-1.0, 1.0),
+                         (-12.0, -8.0), (0.5, 16.0)):
+                yield {"kind": "limits", "sm": 100.0, "ss": ss, "lm": 10.0 ** l50, "ls": ls, "lo": l50 + a * ls, "hi": l50 + b * ls}
+    # the two inputs of the review
+    yield {"kind": "limits", "sm": 100.0, "ss": 0.3, "lm": 10.0 ** 2.3, "ls": 3.0, "lo": 2.3 - 6.0, "hi": 2.3 - 3.0}
+    yield {"kind": "limits", "sm": 100.0, "ss": 0.01, "lm": 10.0 ** (2 + 1e-6), "ls": 0.3, "lo": 2 + 1e-6 - 0.6, "hi": 2 + 1e-6 - 0.3}
+    yield {"kind": "limits", "sm": 100.0, "ss": 1e-6, "lm": 1000.0, "ls": 13.0, "lo": None, "hi": 2.0}
+
+
+def gen_rtype_family():
+    """FIXED family: the type of what pf_norm_load returns (a python float on every path) for the argument types a caller
+    has at hand"""
+    for argtype in ("float", "int", "np.float64", "np.float32", "0-d array"):
+        for sm, ss, lm, ls, lo, hi in ((100.0, 1.0, 70.0, 2.0, None, None), (100.0, 1.0, 170.0, 2.0, None, None),
+                                       (100.0, 1.0, 100.0, 2.0, None, None), (100.0, 1.0, 170.0, 2.0, 1.0, 3.0),
+                                       (100.0, 1.0, 70.0, 2.0, None, 3.0), (100.0, 1.0, 170.0, 2.0, "-inf", "inf"),
+                                       (100.0, 1.0, 170.0, 0.0, None, None)):
+            yield {"kind": "rtype", "argtype": argtype, "sm": sm, "ss": ss, "lm": lm, "ls": ls, "lo": lo, "hi": hi}
+    for sm, ss, lm, ls in ((100.0, 0.05, 170.0, 0.1), (100.0, 0.05, 70.0, 0.1), (100.0, 0.05, 125.89254117941675, 0.025)):
+        yield {"kind": "rtype", "argtype": "float", "sm": sm, "ss": ss, "lm": lm, "ls": ls, "lo": None, "hi": None}
+        yield {"kind": "rtype", "argtype": "np.float32", "sm": sm, "ss": ss, "lm": lm, "ls": ls, "lo": None, "hi": None}
+
+
 def gen_limits(rng):
     """pf_norm_load with explicit lower_limit / upper_limit (log10 units; None = default, +-inf allowed)"""
     c = None
@@ -260,6 +360,11 @@ def gen_limits(rng):
         b = a + logu(rng, 1e-6, 1.0)
     if a is not None and b is not None and not a < b:
         a, b = -1.0, 1.0
+    w = ss / ls
+    if a is not None and b is not None and math.isfinite(b) and b < tr - 10.0 * w and w < 0.05 * (b - max(a, -16.0)):
+        # a window entirely below the strength distribution holds a probability < 1e-23 of its load mass that sits in a
+        # layer of a fraction of a strength sd at its upper end: adaptive quadrature has to be able to see that layer
+        a = b - rng.uniform(2.0, 20.0) * w
     c["kind"] = "limits"
     c["lo"] = None if a is None else ("-inf" if math.isinf(a) else l50 + a * ls)
     c["hi"] = None if b is None else ("inf" if math.isinf(b) else l50 + b * ls)
@@ -330,7 +435,7 @@ class C15(Prop):
         "pf_zero_scatter_eq_simple_load", "pf_tends_to_simple_load",
         "overlap_integral_eq_closed_form", "overlap_integral_standardised", "overlap_integral_tends_to_simple_load",
         "pf_norm_load_code_eq_window_integral", "pf_norm_load_code_truncation", "pf_norm_load_code_near_closed_form",
-        "pf_norm_load_code_in_unit_interval", "pf_norm_load_code_limit",
+        "pf_norm_load_code_in_unit_interval", "pf_norm_load_code_limit", "pf_norm_load_code_zero_scatter",
         "pf_arbitrary_eq_trapezoidal_rule", "pf_arbitrary_converges_partial",
         "pf_arbitrary_nonuniform_error_le", "pf_arbitrary_gaussian_converges",
         ]]
@@ -350,8 +455,12 @@ class C15(Prop):
             "+-7.0344 i.e. pf in [1e-12, 1-1e-12], extra mass on both tails, on transitions lying exactly on bisection points of "
             "the integration interval, and a FIXED family in which a break point candidate transition +- 10 s_std/load_std "
             "coincides with an integration limit +-16 exactly and within +-3 ulp of the load median, plus the round-number "
-            "inputs 10^(k/20) for which it does); limits (explicit lower/upper limit: windows, a limit on a break point, "
-            "+-inf, tiny windows); simple (deterministic loads); simplearr (ndarray / Series / list strength and load against "
+            "inputs 10^(k/20) for which it does, and a FIXED family strength_std/load_std = 1e-12 .. 1e-5 (incl. both sides of "
+            "1.6e-6) x 11 load medians from z = -7 to 7); limits (explicit lower/upper limit: windows, a limit on a break point, "
+            "+-inf, tiny windows; FIXED family of 203 windows of 1 .. 15 load sd holding 1e-200 .. 1 of their load mass, load "
+            "median below and above the strength median); rtype (FIXED: python float / int / np.float64 / np.float32 / 0-d "
+            "array arguments, all branches: the result is a python float and the window integral); api (load_std = 0 is "
+            "pf_simple_load or refused, negative load_std is refused); simple (deterministic loads); simplearr (ndarray / Series / list strength and load against "
             "scalar calls); state (a call sequence norm/simple/arb on ONE object against fresh objects); limit (load scatter "
             "-> 0 sequence); arb (sampled log-normal density on a refinement sequence of two-scale grids and on random nodes); "
             "arbk (short arbitrary node lists, ascending and descending); api (shape mismatch raises ValueError).  "
@@ -376,11 +485,16 @@ class C15(Prop):
         "pf_norm_load_code_near_closed_form bounds the distance to the closed form by 2 Phi(-16) < 2e-55.  Explicit "
         "lower_limit / upper_limit are modelled as the standardised window (pf_norm_load_code_truncation) and checked against an "
         "independent window integral although the property text does not mention them",
-        "C15: admissible = medians and loads positive, strength_std > 0, load_std > 0 (load_std = 0.0 raises ZeroDivisionError "
-        "in the repaired code, it returned 0.0 before 2a91979; the limit statement is about load_std -> 0, checked down to "
-        "1e-30 strength_std); pf_norm_load takes scalars (quad is scalar); pf_simple_load / pf_arbitrary_load arrays",
-        "C15: the model describes the REPAIRED pf_norm_load (/repo commits 2a91979 + 04bca38): on a tree without 04bca38 inputs whose break point candidate falls within a few ulp of +-16 are wrong by "
-        "1-10 % of min(pf, 1-pf) and the oracle reports them (class pf-breakpoint-at-limit, fixed by 04bca38)",
+        "C15: admissible = medians and loads positive, strength_std > 0, load_std >= 0 (load_std = 0.0 is the deterministic load "
+        "since the follow-up repair - theorem pf_norm_load_code_zero_scatter -, it raised ZeroDivisionError after 2a91979 and "
+        "returned 0.0 before; negative load_std raises ValueError); pf_norm_load takes scalars (quad is scalar; 1-element arrays "
+        "raise on every version); pf_simple_load / pf_arbitrary_load arrays",
+        "C15: the model describes the REPAIRED pf_norm_load (/repo commits 2a91979, 04bca38 + tools/fixes/C15-pf-norm-load-followup.diff; "
+        "branch rule of pfNormLoadCode: default limits and loc < 0, or direct integral above half the window's load mass -> through "
+        "the complement).  Without the follow-up: strength_std/load_std < 1.6e-6 is wrong by up to 3e-5 relative (class "
+        "pf-breakpoint-dropped), explicit windows with the load median above the strength median lose all relative accuracy and "
+        "can come out negative (pf-window-cancellation), the result is an np.float64 on the loc < 0 path (pf-return-type); without "
+        "04bca38 a break point candidate within a few ulp of +-16 gives 1-10 % error (pf-breakpoint-at-limit)",
         "C15: FailureProbability objects are modelled as immutable pairs (log10 strength_median, strength_std); the state kind "
         "checks that a call sequence on one object gives the results of fresh objects",
     ]
@@ -426,6 +540,28 @@ class C15(Prop):
 
     def pf_norm(self, sm, ss, lm, ls, lo=None, hi=None):
         return self.pf_norm_full(sm, ss, lm, ls, lo, hi)[0]
+
+    @staticmethod
+    def typed(argtype, v):
+        return {"float": float, "int": lambda x: int(round(x)), "np.float64": np.float64, "np.float32": np.float32,
+                "0-d array": lambda x: np.array(float(x))}[argtype](v)
+
+    def pf_typed(self, case):
+        """(value as float or NaN, type name of what came back, note) of pf_norm_load called with arguments of case['argtype']"""
+        t = lambda v: self.typed(case["argtype"], v)
+        kw = {}
+        if case["lo"] is not None:
+            kw["lower_limit"] = limv(case["lo"])
+        if case["hi"] is not None:
+            kw["upper_limit"] = limv(case["hi"])
+        box = {}
+
+        def call():
+            r = _fp().FailureProbability(t(case["sm"]), t(case["ss"])).pf_norm_load(t(case["lm"]), t(case["ls"]), **kw)
+            box["type"] = type(r).__module__.split(".")[0] + "." + type(r).__name__ if type(r).__module__ != "builtins" else type(r).__name__
+            return float(r)
+        v, note = self._call(call)
+        return v, box.get("type", "none"), note
 
     @staticmethod
     def pf_simple(sm, ss, load):
@@ -499,6 +635,11 @@ class C15(Prop):
                 lm = 10.0 ** (2.0 + z * math.hypot(ls, ss))
                 yield {"kind": "norm", "sm": 100.0, "ss": ss, "lm": lm, "ls": ls}
         yield {"kind": "api", "what": "shape-mismatch"}
+        yield {"kind": "api", "what": "scatter"}
+        # fixed (follow-up of the fix review): very narrow strength, windows with a tiny content, return type
+        yield from gen_narrow_family()
+        yield from gen_window_family()
+        yield from gen_rtype_family()
         n = 0
         while n < counts["norm"]:
             c = gen_norm(rng)
@@ -537,6 +678,10 @@ class C15(Prop):
         if k == "limits":
             a = f"{f2h(case['sm'])} {f2h(case['ss'])} {f2h(case['lm'])} {f2h(case['ls'])}"
             return [f"c15.normw {a} {self._lim(case['lo'])} {self._lim(case['hi'])}"]
+        if k == "rtype":
+            t = lambda v: float(self.typed(case["argtype"], v))
+            a = f"{f2h(t(case['sm']))} {f2h(t(case['ss']))} {f2h(t(case['lm']))} {f2h(t(case['ls']))}"
+            return [f"c15.normw {a} {self._lim(case['lo'])} {self._lim(case['hi'])}"]
         if k == "simple":
             return [f"c15.simple {f2h(case['sm'])} {f2h(case['ss'])} {f2h(l)}" for l in case["loads"]]
         if k == "simplearr":
@@ -558,12 +703,17 @@ class C15(Prop):
             self._count("norm_ratio_decade_%+d" % math.floor(math.log10(case["ls"] / case["ss"]) + 1e-9))
             if breakpoint_at_limit(case["sm"], case["ss"], case["lm"], case["ls"]):
                 self._count("norm_breakpoint_candidate_at_limit")
+            if case["ss"] / case["ls"] <= 1e-5:
+                self._count("norm_strength_std_below_1e-5_load_std")
             v = f2h(self.pf_norm(case["sm"], case["ss"], case["lm"], case["ls"]))
             return [v, v]
         if k == "limits":
             self._count("limits_" + ("inf" if any(isinstance(v, str) for v in (case["lo"], case["hi"])) else
                                      "default-one-side" if None in (case["lo"], case["hi"]) else "finite"))
             return [f2h(self.pf_norm(case["sm"], case["ss"], case["lm"], case["ls"], limv(case["lo"]), limv(case["hi"])))]
+        if k == "rtype":
+            self._count("rtype_" + case["argtype"])
+            return [f2h(self.pf_typed(case)[0])]
         if k == "simple":
             return [f2h(self.pf_simple(case["sm"], case["ss"], l)) for l in case["loads"]]
         if k == "simplearr":
@@ -610,12 +760,23 @@ class C15(Prop):
                 # the code-level model (window, cdf / sf branch, Gauss-Legendre): same tolerance, complement from the closed form
                 q = model_out[0].split()[1]
                 d = self._cmp_pf(f"{a} {q}", b, 1e-8, "code-level model pfNormLoadCode: ")
-            elif k == "limits":
+            elif k in ("limits", "rtype"):
                 got, want = h2f(b), h2f(a)
-                lo, hi = self._std_limits(case)
-                mass = Phi(hi) - Phi(lo) if lo < 0 else Phi(-lo) - Phi(-hi)
-                if not abs(got - want) <= 1e-8 * abs(want) + 1e-10 * mass + 4 * ULP1:
-                    d = f"explicit limits: code-level model {want!r} impl={got!r} (window load mass {mass:.3g})"
+                c = case if k == "limits" else {kk: (float(self.typed(case["argtype"], v)) if kk in ("sm", "ss", "lm", "ls") else v) for kk, v in case.items()}
+                rt = 1e-5 if case.get("argtype") == "np.float32" else 1e-8     # single precision arguments: 6e-8 in log10(strength)
+                if c["ls"] == 0.0:
+                    ok = abs(got - want) <= max(rt, 1e-11) * abs(want)
+                    mass = 1.0
+                else:
+                    lo, hi = self._std_limits(c)
+                    mass = Phi(hi) - Phi(lo) if lo < 0 else Phi(-lo) - Phi(-hi)
+                    dd = abs(got - want)
+                    # relative on the window's failure probability AND on its complement within the window's load mass
+                    # the model's own Phi is good for 1e-14 relative (4 x the 64 ulp granted to scipy's)
+                    slack = limit_rounding(c)
+                    ok = dd <= rt * abs(want) + slack + 1e-300 and dd <= rt * max(mass - want, 0.0) + slack + 4 * mass_rounding(lo, hi)
+                if not ok:
+                    d = f"explicit limits / typed arguments: code-level model {want!r} impl={got!r} (window load mass {mass:.3g})"
             elif k == "state":
                 c = case["calls"][i]
                 if c[0] == "arb":
@@ -641,7 +802,7 @@ class C15(Prop):
         l50, ls = math.log10(case["lm"]), case["ls"]
         lo = -16.0 if case["lo"] is None else (limv(case["lo"]) - l50) / ls
         hi = 16.0 if case["hi"] is None else (limv(case["hi"]) - l50) / ls
-        return lo, hi
+        return min(max(lo, -16.0), 16.0), min(max(hi, -16.0), 16.0)     # documented: limits beyond 16 load sd are moved there
 
     # -------------------------------------------------------------- direct property oracle (real code only)
     def oracle(self, case):
@@ -663,6 +824,9 @@ class C15(Prop):
         if not pf_close(got, pf, q, RT_ORACLE):
             d = (f"{where} = {got!r}, closed form Phi({z!r}) = {pf!r} (1 - pf = {q!r}): relative deviation "
                  f"{abs(got - pf) / pf:.3g} on pf, {abs(got - pf) / q:.3g} on 1 - pf{note}")
+            if breakpoint_dropped(ss, ls):
+                return (d + f"; strength_std / load_std = {ss / ls:.3g}: the two break point candidates transition -+ 10 s_std/load_std "
+                        "are closer to each other than 1e-6 of the integration range", "pf-breakpoint-dropped")
             if breakpoint_at_limit(sm, ss, lm, ls):
                 lo_, hi_ = head_breakpoints(sm, ss, lm, ls)
                 return (d + f"; break point candidates transition -+ 10 s_std/load_std = {lo_!r}, {hi_!r}: one of them lies "
@@ -683,23 +847,54 @@ class C15(Prop):
                         f"(strength_std {ss!r}, load {lm!r}/{ls!r})", "pf-antitone-strength")
         return None
 
+    def _window_verdict(self, got, note, where, sm, ss, lm, ls, lo, hi, rtol=RT_ORACLE, slack=0.0):
+        """pf_norm_load with explicit limits against the independent window integral: relative on the failure probability of
+        the window AND on its complement within the window's load mass (the result is a number of the size of the mass and the
+        mass itself comes out of two norm.cdf / norm.sf calls: 64 ulp)"""
+        P, Q, mass = ref_window(sm, ss, lm, ls, lo, hi)
+        if not (0.0 <= got <= 1.0):
+            return (f"{where} = {got!r} outside [0, 1] (window integral {P!r}){note}", "pf-window-cancellation" if abs(got - P) <= 1e-15 else "pf-range")
+        d = abs(got - P)
+        if not (d <= rtol * P + slack + 1e-300 and d <= rtol * Q + slack + mass_rounding(lo, hi)):
+            klass = "pf-window-cancellation" if d <= 1e-15 * mass else "pf-explicit-limits"
+            return (f"{where} = {got!r}, but the overlap integral over the window (standardised limits {lo!r} .. {hi!r}, load mass "
+                    f"{mass:.6g}) is {P!r} (complement within the window {Q!r}): relative deviation {d / P if P else math.inf:.3g} on pf, "
+                    f"{d / Q if Q else math.inf:.3g} on the complement{note}", klass)
+        return None
+
     def _oracle_limits(self, case):
         sm, ss, lm, ls = case["sm"], case["ss"], case["lm"], case["ls"]
         lo, hi = self._std_limits(case)
-        ref, mass = ref_window(sm, ss, lm, ls, lo, hi)
         got, note = self.pf_norm_full(sm, ss, lm, ls, limv(case["lo"]), limv(case["hi"]))
         where = (f"FailureProbability({sm!r}, {ss!r}).pf_norm_load({lm!r}, {ls!r}, lower_limit={case['lo']!r}, "
                  f"upper_limit={case['hi']!r})")
-        if not (-4 * ULP1 <= got <= 1.0):
-            return (f"{where} = {got!r} outside [0, 1]{note}", "pf-range")
-        if not abs(got - ref) <= RT_ORACLE * ref + 1e-9 * mass + 4 * ULP1:
-            return (f"{where} = {got!r}, but the overlap integral over the window (standardised limits {lo!r} .. {hi!r}, load mass "
-                    f"{mass:.6g}) is {ref!r}{note}", "pf-explicit-limits")
-        if math.isinf(lo) and math.isinf(hi):
+        res = self._window_verdict(got, note, where, sm, ss, lm, ls, lo, hi, slack=limit_rounding(case))
+        if res is not None:
+            return res
+        if lo == -16.0 and hi == 16.0:
             z = zvalue(sm, ss, lm, ls)
             if not pf_close(got, Phi(z), Phi(-z), RT_ORACLE):
                 return (f"{where} = {got!r}, closed form {Phi(z)!r}{note}", "pf-explicit-limits")
         return None
+
+    def _oracle_rtype(self, case):
+        t = lambda v: float(self.typed(case["argtype"], v))
+        sm, ss, lm, ls = t(case["sm"]), t(case["ss"]), t(case["lm"]), t(case["ls"])
+        got, tname, note = self.pf_typed(case)
+        where = (f"FailureProbability({case['argtype']}({case['sm']!r}), {case['argtype']}({case['ss']!r})).pf_norm_load("
+                 f"{case['argtype']}({case['lm']!r}), {case['argtype']}({case['ls']!r}), {case['lo']!r}, {case['hi']!r})")
+        if got == got and tname != "float":
+            return (f"{where} returns a {tname} ({got!r}); it returns a python float when the load median is below the strength "
+                    "median (and did so on every path before commit 2a91979)", "pf-return-type")
+        if ls == 0.0:
+            z = (math.log10(lm) - math.log10(sm)) / ss
+            if not pf_close(got, Phi(z), Phi(-z), 1e-5 if case["argtype"] == "np.float32" else 1e-9):
+                return (f"{where} = {got!r}: a load without scatter is pf_simple_load = {Phi(z)!r}{note}", "pf-api")
+            return None
+        lo, hi = self._std_limits(dict(case, lm=lm, ls=ls))
+        # np.float32 arguments: the constructor keeps log10(strength_median) in single precision (6e-8)
+        return self._window_verdict(got, note, where, sm, ss, lm, ls, lo, hi, 1e-5 if case["argtype"] == "np.float32" else RT_ORACLE,
+                                    slack=limit_rounding(dict(case, lm=lm, ls=ls)))
 
     def _oracle_simple(self, case):
         sm, ss = case["sm"], case["ss"]
@@ -743,6 +938,8 @@ class C15(Prop):
         return None
 
     def _oracle_api(self, case):
+        if case["what"] == "scatter":
+            return self._oracle_api_scatter(case)
         FP = _fp()
         try:
             FP.FailureProbability(1.0, 0.1).pf_arbitrary_load(np.array([1.0, 2.0, 3.0]), np.array([0.1, 0.2]))
@@ -752,6 +949,28 @@ class C15(Prop):
             return (f"pf_arbitrary_load with load_values of shape (3,) and load_pdf of shape (2,) raises {type(e).__name__}, "
                     "documented: ValueError", "pf-api")
         return ("pf_arbitrary_load accepts load_values of shape (3,) with load_pdf of shape (2,)", "pf-api")
+
+    def _oracle_api_scatter(self, case):
+        """load_std = 0 is the deterministic load (or refused with a ValueError), a negative load_std is refused or NaN"""
+        FP = _fp()
+        for zero in (0.0, np.float64(0.0)):
+            try:
+                r = float(FP.FailureProbability(100.0, 0.05).pf_norm_load(170.0, zero))
+            except ValueError:
+                continue
+            except Exception as e:
+                return (f"FailureProbability(100.0, 0.05).pf_norm_load(170.0, {zero!r}) raises {type(e).__name__}: {e}; the limit "
+                        "load_std -> 0 is pf_simple_load(170.0) = 0.99999797673844", "pf-api")
+            if not abs(r - 0.9999979767384418) <= 1e-12:
+                return (f"FailureProbability(100.0, 0.05).pf_norm_load(170.0, {zero!r}) = {r!r}, pf_simple_load(170.0) = 0.99999797673844", "pf-api")
+        try:
+            r = float(FP.FailureProbability(100.0, 0.05).pf_norm_load(170.0, -0.1))
+        except Exception:
+            return None
+        if r == r:
+            return (f"FailureProbability(100.0, 0.05).pf_norm_load(170.0, -0.1) = {r!r}: a negative standard deviation is accepted "
+                    "silently", "pf-api")
+        return None
 
     def _oracle_limit(self, case):
         sm, ss, lm = case["sm"], case["ss"], case["lm"]
